@@ -136,11 +136,12 @@ Definition shape_ok (n m : nat) (X : mat S) : bool :=
 Definition col_verdict (n : nat) (A : mat S) (b x u xcode : vec S) (pivot_one : bool) : nat :=
   if negb (is_solution_b ot eqb n A b x) then 1
   else if negb (series_le_b ot leb n A b (Datatypes.S n) x) then 2
-  else if negb (cert_le_b ot leb n A b u x) then 3
-  else if negb (vec_all2 ot leb n x (solve_model ot n A b))
-       then (if pivot_one && vec_all2 ot eqb n x xcode then 6 else 4)
-  else if negb (vec_all2 ot eqb n x xcode) then 10
-  else 0.
+  else
+    let cert_ok := cert_le_b ot leb n A b u x in
+    if negb cert_ok || negb (vec_all2 ot leb n x (solve_model ot n A b))
+    then (if pivot_one && vec_all2 ot eqb n x xcode then 6 else if cert_ok then 4 else 3)
+    else if negb (vec_all2 ot eqb n x xcode) then 10
+    else 0.
 
 Fixpoint first_nonzero (l : list nat) : nat :=
   match l with [] => 0 | 0 :: l => first_nonzero l | c :: _ => c end.
